@@ -342,10 +342,11 @@ def select__child_path(self: XPathToken, context: ta.ContextType = None) \
                 elif isinstance(result, ElementNode):
                     if result.value not in items:
                         items.add(result)
-                        yield result
                 else:
                     items.add(result)
-                    yield result
+
+        # The nodes selected by a path step are returned in document order
+        yield from sorted(items, key=node_position)
 
 
 @method('//')
@@ -369,10 +370,11 @@ def select__descendant_path(self: XPathToken, context: ta.ContextType = None) \
                     elif isinstance(result, ElementNode):
                         if result.value not in items:
                             items.add(result)
-                            yield result
                     else:
                         items.add(result)
-                        yield result
+
+        # The nodes selected by a path step are returned in document order
+        yield from sorted(items, key=node_position)
 
     else:
         if isinstance(context.document, DocumentNode):
